@@ -323,9 +323,19 @@ def constructor_cases(rng):
               (f'wheel pa={pa} teeth=9', lambda ww=ww: ww(n_teeth=9), 'reject')]
     C += [('worm pressure angle not tabulated', lambda: mo.WormGear(name='w', n_starts=1, inertia_moment=J, pressure_angle=U.Angle(22, 'deg'), helix_angle=U.Angle(5, 'deg')), 'reject')]
 
+    class RejectedAssignmentLeftItsValue(Exception):
+        pass
+
     def pwm_case(v):
         m = motor()
-        m.pwm = v
+        before = m.pwm
+        try:
+            m.pwm = v
+        except ValueError:
+            # the refusal is only half of it: the motor must not keep the refused duty cycle
+            if not (isinstance(m.pwm, (int, float)) and -1 <= m.pwm <= 1 and m.pwm == before):
+                raise RejectedAssignmentLeftItsValue(f'pwm is {m.pwm!r} after the refused assignment of {v!r}')
+            raise
         return m
     for v in (1.0000001, -1.0000001, 2, -5, 1e6):
         C.append((f'pwm={v}', lambda v=v: pwm_case(v), 'reject'))
